@@ -317,6 +317,19 @@ func (c *Ctx) merge(es []edge) (*State, string) {
 			switch {
 			case anyPtr && allPtr && agree:
 				out.ptrs[a] = first
+			case anyPtr && allPtr && c.sameRawRoot(es, a):
+				// the same memory with different indices (e.g. `if c == '-' { sp++ }`):
+				// one pointer whose index is the if-then-else of the edge indices
+				q0 := es[len(es)-1].st.ptrs[a]
+				idx := q0.P.Steps[len(q0.P.Steps)-1].Idx
+				for k := len(es) - 2; k >= 0; k-- {
+					qk := es[k].st.ptrs[a]
+					idx = ite(es[k].cond, qk.P.Steps[len(qk.P.Steps)-1].Idx, idx)
+				}
+				np := *q0.P
+				np.Steps = append([]Step{}, q0.P.Steps...)
+				np.Steps[len(np.Steps)-1].Idx = c.bind("pidx", idx, c.idxSort())
+				out.ptrs[a] = Val{T: q0.T, P: &np}
 			case anyPtr && allPtr:
 				var as []PAlt
 				for _, e := range es {
